@@ -4,6 +4,7 @@
   closed form of `io.ReadAll` / `readAll` for every chunking script.
 -/
 import Influx.Model.WriteAPI
+import Influx.Spec.C32
 
 namespace Influx.WriteAPI
 
@@ -319,5 +320,167 @@ theorem readAll_spec (s : Src) (limit : Int) (bufs : List Nat) :
     · simp only [ht, termErr, ↓reduceIte, ne_eq, not_true_eq_false]
       cases s.closeErr <;> simp
     · simp [termErr, ht]
+
+/-- everything one `Read` of the repaired LimitedReadCloser does, for a reader with N ≥ 0 -/
+theorem LRC.read_cases {l : LRC} {k : Nat} (hn : 0 ≤ l.n) {l' : LRC} {bs : List Nat} {e : Option RErr}
+    (h : l.read k = (l', bs, e)) :
+    l'.closed = l.closed ∧ l'.err = l.err ∧ l'.r.term = l.r.term ∧
+    ((l.limitExceeded = true ∧ l.n = 0 ∧ l' = l ∧ bs = [] ∧ e = some .eof) ∨
+     (l.limitExceeded = true ∧ 0 < l.n ∧ l'.limitExceeded = true ∧ l.r.data = bs ++ l'.r.data ∧
+        l'.n = l.n - bs.length ∧ (bs.length : Int) ≤ l.n) ∨
+     (l.limitExceeded = false ∧ l.n = 0 ∧ bs = [] ∧ l'.n = 0 ∧ l'.limitExceeded = true ∧
+        l'.r.data.length + 1 = l.r.data.length ∧ e = some .eof) ∨
+     (l.limitExceeded = false ∧ l.n = 0 ∧ bs = [] ∧ l'.n = 0 ∧ l'.limitExceeded = false ∧
+        l'.r.data = l.r.data ∧ (e = none ∨ (e = some l.r.term ∧ l.r.data = []))) ∨
+     (l.limitExceeded = false ∧ 0 < l.n ∧ l'.limitExceeded = false ∧ l.r.data = bs ++ l'.r.data ∧
+        l'.n = l.n - bs.length ∧ (bs.length : Int) ≤ l.n ∧ (e = none ∨ (e = some l.r.term ∧ l'.r.data = [])))) := by
+  unfold LRC.read at h
+  split at h
+  · next h0 =>
+    have hn0 : l.n = 0 := by omega
+    split at h
+    · next hx =>
+      simp only [Prod.mk.injEq] at h
+      obtain ⟨rfl, rfl, rfl⟩ := h
+      exact ⟨rfl, rfl, rfl, Or.inl ⟨hx, hn0, rfl, rfl, rfl⟩⟩
+    · next hx =>
+      have hx' : l.limitExceeded = false := by simpa using hx
+      generalize hs : l.r.read 1 = res at h
+      obtain ⟨r1, bs1, e1⟩ := res
+      obtain ⟨hd, ht, -, -, -, hlen, h7, -⟩ := Src.read_spec _ _ hs
+      simp only at h
+      split at h
+      · next hpos =>
+        simp only [Prod.mk.injEq] at h
+        obtain ⟨rfl, rfl, rfl⟩ := h
+        refine ⟨rfl, rfl, ht, Or.inr (Or.inr (Or.inl ⟨hx', hn0, rfl, hn0, rfl, ?_, rfl⟩))⟩
+        simp only
+        rw [hd, List.length_append]
+        omega
+      · next hpos =>
+        simp only [Prod.mk.injEq] at h
+        obtain ⟨rfl, rfl, rfl⟩ := h
+        have hb : bs1 = [] := by cases bs1 <;> simp_all
+        subst hb
+        refine ⟨rfl, rfl, ht, Or.inr (Or.inr (Or.inr (Or.inl ⟨hx', hn0, rfl, hn0, hx', ?_, ?_⟩)))⟩
+        · simp only; simpa using hd.symm
+        · rcases h7 with h7 | ⟨h7, h8⟩
+          · left; exact h7
+          · right; exact ⟨h7, by simpa [h8] using hd⟩
+  · next h0 =>
+    simp only at h
+    generalize hk' : (if (k : Int) > l.n then l.n.toNat else k) = k' at h
+    generalize hs : l.r.read k' = res at h
+    obtain ⟨r1, bs1, e1⟩ := res
+    obtain ⟨hd, ht, -, -, -, hlen, h7, -⟩ := Src.read_spec _ _ hs
+    simp only [Prod.mk.injEq] at h
+    obtain ⟨rfl, rfl, rfl⟩ := h
+    have hk2 : (bs1.length : Int) ≤ l.n := by split at hk' <;> omega
+    refine ⟨rfl, rfl, ht, ?_⟩
+    rcases Bool.eq_false_or_eq_true l.limitExceeded with hx | hx
+    · exact Or.inr (Or.inl ⟨hx, by omega, hx, hd, rfl, hk2⟩)
+    · exact Or.inr (Or.inr (Or.inr (Or.inr ⟨hx, by omega, hx, hd, rfl, hk2, h7⟩)))
+
+section
+open Influx.Spec.C32
+
+/-- invariant of a LimitedReadCloser (limit ≥ 0) around a clean stream of `size`
+    bytes while it is being read: `d` bytes delivered so far, `e`: some Read has
+    reported an error -/
+def LInv (limit : Int) (size : Nat) (l : LRC) (d : Nat) (e : Bool) : Prop :=
+  l.closed = false ∧ l.err = none ∧ l.r.term = .eof ∧ 0 ≤ l.n ∧ l.n = limit - d ∧
+  (l.limitExceeded = false → d + l.r.data.length = size) ∧
+  (l.limitExceeded = true → (d : Int) = limit ∧ limit < size) ∧
+  (e = true → l.limitExceeded = true ∨ l.r.data = [])
+
+theorem LInv.read {limit : Int} {size : Nat} {l : LRC} {d : Nat} {e : Bool} (hi : LInv limit size l d e)
+    {k : Nat} {l' : LRC} {bs : List Nat} {er : Option RErr} (h : l.read k = (l', bs, er)) :
+    LInv limit size l' (d + bs.length) (e || er.isSome) := by
+  obtain ⟨i1, i2, i3, i4, i5, i6, i7, i8⟩ := hi
+  obtain ⟨c1, c2, c3, hc⟩ := LRC.read_cases i4 h
+  rcases hc with ⟨hx, hn, rfl, rfl, rfl⟩ | ⟨hx, hn, -⟩ | ⟨hx, hn, rfl, hn', hx', hd, rfl⟩ |
+      ⟨hx, hn, rfl, hn', hx', hd, he⟩ | ⟨hx, hn, hx', hd, hn', hle, he⟩
+  · exact ⟨i1, i2, i3, i4, by simpa using i5, i6, by simpa using i7, fun _ => Or.inl hx⟩
+  · have := (i7 hx).1; omega
+  · refine ⟨c1.trans i1, c2.trans i2, c3.trans i3, by omega, by simp; omega, ?_, ?_, fun _ => Or.inl hx'⟩
+    · intro hf; rw [hx'] at hf; cases hf
+    · intro _
+      have := i6 hx
+      simp only [List.length_nil, Nat.add_zero]
+      omega
+  · refine ⟨c1.trans i1, c2.trans i2, c3.trans i3, by omega, by simp; omega, ?_, ?_, ?_⟩
+    · intro _; simpa [hd] using i6 hx
+    · intro hf; rw [hx'] at hf; cases hf
+    · intro he'
+      right
+      rw [hd]
+      rcases he with rfl | ⟨rfl, hnil⟩
+      · simp only [Option.isSome_none, Bool.or_false] at he'
+        rcases i8 he' with h1 | h1
+        · rw [hx] at h1; cases h1
+        · exact h1
+      · exact hnil
+  · have hlen : l.r.data.length = bs.length + l'.r.data.length := by rw [hd, List.length_append]
+    refine ⟨c1.trans i1, c2.trans i2, c3.trans i3, by omega, by rw [hn', i5]; simp; omega, ?_, ?_, ?_⟩
+    · intro _; have := i6 hx; omega
+    · intro hf; rw [hx'] at hf; cases hf
+    · intro he'
+      right
+      rcases he with rfl | ⟨rfl, hnil⟩
+      · simp only [Option.isSome_none, Bool.or_false] at he'
+        rcases i8 he' with h1 | h1
+        · rw [hx] at h1; cases h1
+        · rw [h1] at hd
+          have := List.append_eq_nil_iff.1 hd.symm
+          exact this.2
+      · exact hnil
+
+theorem lrc_run (limit : Int) (size : Nat) (steps : List Step) :
+    ∀ (l : LRC) (d : Nat) (e : Bool), LInv limit size l d e →
+    match readsThenClose steps ((l.runSteps steps).2.map obsOfRes) d e with
+    | none => True
+    | some (n, c) => n = min size limit.toNat ∧ c.isLimit = decide (limit < (size : Int)) := by
+  induction steps with
+  | nil => intro l d e _; simp [LRC.runSteps, readsThenClose]
+  | cons st ss ih =>
+    intro l d e hi
+    cases st with
+    | read k =>
+      generalize hr : l.read k = res
+      obtain ⟨l', bs, er⟩ := res
+      have := ih l' (d + bs.length) (e || er.isSome) (hi.read hr)
+      simpa [LRC.runSteps, hr, readsThenClose, obsOfRes] using this
+    | close =>
+      obtain ⟨i1, i2, i3, i4, i5, i6, i7, i8⟩ := hi
+      have hce := LRC.close_err l i1 i2
+      generalize hc : l.close = res at hce
+      obtain ⟨l', ce⟩ := res
+      simp only [LRC.runSteps, hc, List.map_cons, readsThenClose, obsOfRes]
+      cases e with
+      | false => simp
+      | true =>
+        simp only [↓reduceIte]
+        simp only at hce
+        rcases Bool.eq_false_or_eq_true l.limitExceeded with hx | hx
+        · obtain ⟨h1, h2⟩ := i7 hx
+          rw [hce, hx]
+          simp only [↓reduceIte, beq_self_eq_true]
+          constructor
+          · omega
+          · simpa using h2
+        · have hd : l.r.data = [] := by
+            rcases i8 rfl with h1 | h1
+            · rw [hx] at h1; cases h1
+            · exact h1
+          have hs := i6 hx
+          rw [hd] at hs
+          simp only [List.length_nil, Nat.add_zero] at hs
+          rw [hce, hx]
+          constructor
+          · omega
+          · have : ¬ limit < (size : Int) := by omega
+            cases l.r.closeErr <;> simp [this]
+
+end
 
 end Influx.WriteAPI
